@@ -31,6 +31,9 @@ fn main() {
     }
     // panics are expected outcomes of cases; keep stderr quiet
     if std::env::var("VERIF_SHOW_PANICS").is_err() { std::panic::set_hook(Box::new(|_| {})); }
+    // watchdog: a hang of the implementation must not hang the check
+    let limit = if thorough { 3000 } else { 900 };
+    std::thread::spawn(move || { std::thread::sleep(std::time::Duration::from_secs(limit)); eprintln!("WATCHDOG: harness exceeded {} s (possible hang in the implementation)", limit); std::process::exit(3); });
     let mut ctx = ctx::Ctx::new(&prop, thorough, seed, out, only);
     match prop.as_str() {
         "C13" => c13::run(&mut ctx),
